@@ -363,6 +363,10 @@ func (m *MemoryBackend) Publish(client *Client, msg *packet.Message, ack Ack) er
 	// add message to temporary sessions
 	for _, sess := range m.temporarySessions {
 		if sub := sess.lookupSubscription(msg.Topic); sub != nil {
+			// apply the maximum qos of the subscription now, as it may be
+			// gone when the message is dequeued
+			msg := sess.applyQOS(msg)
+
 			if sess.activeClient == client {
 				// detect deadlock when adding to own queue
 				select {
@@ -388,6 +392,10 @@ func (m *MemoryBackend) Publish(client *Client, msg *packet.Message, ack Ack) er
 	// add message to stored sessions
 	for _, sess := range m.storedSessions {
 		if sub := sess.lookupSubscription(msg.Topic); sub != nil {
+			// apply the maximum qos of the subscription now, as it may be
+			// gone when the message is dequeued
+			msg := sess.applyQOS(msg)
+
 			if sess.activeClient == client {
 				// detect deadlock when adding to own queue
 				select {
